@@ -102,7 +102,9 @@ def leaf_array(leaf, lead, pat=0, trail=None, bad=None):
     t = leaf["t"]
     if t == "box":
         dt, lo, hi = leaf["dtype"], leaf["low"], leaf["high"]
-        if dt == "uint8":
+        if dt == "uint8" and pat == 99:                  # pixels exactly at the bounds
+            v = np.where(i % 2 == 0, 0, 255)
+        elif dt == "uint8":
             v = (37 * i + 11 * pat + 3) % 256
         elif dt == "int64":
             v = ((i + pat) % 5) if lo == 0 else ((3 * i + pat) % 11 - 5)
@@ -157,10 +159,12 @@ def _row(leaf, arr, lead, row):
 
 
 def _conv(a, inp):
-    if inp == "tensor" or inp == "tensordict":
+    if inp in ("tensor", "tensordict", "tensordict_cpu"):
         return torch.from_numpy(np.ascontiguousarray(a))
     if inp == "number":
         return a.item()
+    if inp == "npscalar":
+        return np.asarray(a)[()]                     # numpy scalar (np.float32 / np.int64), not a 0-d array
     return a
 
 
@@ -175,6 +179,8 @@ def to_input(case, arrays, row=None):
             d[f"k{k}"] = _conv(a, inp)
         if inp == "tensordict":
             return TensorDict(d, batch_size=list(lead) if row is None else [])
+        if inp == "tensordict_cpu":                  # a TensorDict that already carries the target device
+            return TensorDict(d, batch_size=list(lead) if row is None else [], device="cpu")
         return d
     if sp["t"] == "tuple":
         return tuple(_conv(arrays[k] if row is None else _row(l, arrays[k], lead, row), inp) for k, l in enumerate(sp["members"]))
